@@ -21,6 +21,7 @@ Property theorems only.  Structure of the argument:
   instances of table rows with *truthful* contexts respects the discipline, hence is race-free.
   What "truthful" means is spelled out as the hypotheses `hlocks`, `hctx`, `hown`, `hpre` of
   `row_event_discipline` (the conjuncts of `InstanceOfTable`);
+* `ts_ops_do_not_assert` — no thread-safe operation is loop-confined in disguise;
 * `assert_aborts` — model of `assertInLoopThread()`: on a foreign thread a confined operation
   produces (at most debug-only reads and) an `abort` event and nothing of its body.
 
@@ -62,6 +63,13 @@ the policy declares callable from any thread is itself analysed (thread-safe or 
 theorem lists_covered :
     requiredRoots.all rootPresent = true ∧ safeCallees.all calleeCovered = true := by
   decide +kernel
+
+/-- no operation of the thread-safe lists reaches an owner-thread assertion unconditionally (directly
+or through a method of its class called unconditionally at top level): none of them is loop-confined
+in disguise, i.e. none aborts when called from a foreign thread.  (`TcpServer::start` reaches
+`EventLoopThreadPool::start` only under its once-only test: its *first* call is loop-thread only,
+which the plug-in states as an assumption and observes with an abort child.) -/
+theorem ts_ops_do_not_assert : tsAsserting.isEmpty = true := by decide
 
 /-- **one row, one event**: an event that is an instance of a (non-exempt, non-synchronisation)
 row of the generated table, in a context that is *truthful*, obeys the trace-level discipline of its
